@@ -198,6 +198,8 @@ func SpecMatch(pattern string, hasWild bool, s string) bool {
 //@ immutable Access.AccessResult, Access.Error
 // The kind of an event is fixed when the event is created.
 //@ immutable ResourceEvent.Event
+// Snapshots are never modified in place: a change builds a new Model or Collection.
+//@ immutable Model.Values, Collection.Values
 
 // Callbacks stored in the per-resource work queue are run exactly once by processQueue.
 //@ pending EventSubscription.queue, EventSubscription.locks
